@@ -270,9 +270,14 @@ def pick_options(L, rng, workdirs, args, index, allowed=None):
         opts += ['--trash-dir', '@/' + spelled]
     elif optclass == '--home-fallback':
         opts.append('--home-fallback')
-        if rng.random() < 0.6:
+        r2 = rng.random()
+        if r2 < 0.55:
             env_extra['TRASH_ENABLE_HOME_FALLBACK'] = '1'
             optclass = '--home-fallback+env'
+        elif r2 < 0.8:
+            # only the value 1 switches the fallback on
+            env_extra['TRASH_ENABLE_HOME_FALLBACK'] = rng.choice(
+                ['', '0', 'yes', 'true', '2', ' 1', '01', 'on', '1 '])
     elif optclass == 'fallback-env-only':
         env_extra['TRASH_ENABLE_HOME_FALLBACK'] = '1'
     # semantically neutral decorations: long forms, bundled short options,
